@@ -134,6 +134,8 @@ structure Variant where
   shadowCheck : Bool := false
   /-- `C14-lre-default-namespace-not-an-avt.diff`: a plain `xmlns="u"` on a literal result element is no AVT -/
   noXmlnsAvt : Bool := false
+  /-- `C14-no-alias-for-xsl-attribute.diff`: xsl:attribute's own namespace table is not aliased -/
+  attrNoAlias : Bool := false
 deriving Repr, DecidableEq
 
 /-- the part of `XSLTEngineImpl` the property is about -/
